@@ -9,6 +9,7 @@
 import SmoothProofs.C19Sparse
 import SmoothProofs.C19Leaves
 import SmoothProofs.C19Writes
+import SmoothProofs.C19Ad
 
 open Lin Scalar Mem Sparse
 
@@ -157,6 +158,18 @@ theorem values_equal_dense_commutative (n i0 : Nat) (m : SpMat α)
     omega
   exact SpMat.blockWrite_values m _ hkeys hnd (i0 + i, i0 + i, nat 1)
     (by simp only [identWrites, List.mem_map, List.mem_range]; exact ⟨i, hi, rfl⟩)
+
+
+/-- **ad_sparse keeps the structure**: `ad_sparse` on a compressed `Dof × Dof` host whose pattern
+    contains the generators' patterns (e.g. a copy of `ad_sparse_pattern`, or any superset) returns
+    a compressed matrix with exactly the host's pattern and `nonZeros`; every stored value is
+    recomputed as `0 + Σ a_k · generator_k` (the whole matrix is the designated block). -/
+theorem ad_sparse_frame (d : GDesc) (m : SpMat α) (a : Array α)
+    (hdim : m.rows = dofSize d ∧ m.cols = dofSize d) (hs : SortedKeys m.entries)
+    (hgen : ∀ k, k < dofSize d → ∀ key ∈ (generator (α := α) d k).map Prod.fst, key ∈ m.pattern) :
+    ∃ m', adSparse d m a = some m' ∧ m'.pattern = m.pattern ∧ m'.compressed = true
+      ∧ m'.nonZeros = m.nonZeros ∧ m'.rows = m.rows ∧ m'.cols = m.cols :=
+  adSparse_frame d m a hdim hs hgen
 
 /-- Bundles: the routine is the sequence of the parts' routines at the parts' offsets
     (`i0 + DofsPsum[k]`, tangent segment `a.segment(DofsPsum[k], Dof_k)`) -/
